@@ -8,6 +8,7 @@
 //
 // Protocol with tools/check.py (one line per record, flushed immediately):
 //     B <idx>                         case opened
+//     T <idx> <tag>                   optional label of the open case (prefixed to crash keys)
 //     V <idx> <key>\t<json>           violation inside the open case
 //     I <idx> <reason>                case inconclusive
 //     E <idx> <json>                  case closed; json = counters / nontrivial ids / max ratios / sample
@@ -151,6 +152,15 @@ struct Ctx
     std::string sample;
     long nviol = 0;
     bool want_sample = false;
+    std::string tag;         // optional label of the open case (e.g. "corpus/<id>"); prefixed by the runner to crash keys
+
+    // label the open case; must be called first thing in vf_run_case
+    void set_tag(const std::string& t)
+    {
+        tag = t;
+        fprintf(log, "T %ld %s\n", idx, t.c_str());
+        fflush(log);
+    }
 
     // Reseed for a case. corpus == true: independent of VERIF_SEED (fixed regression corpus).
     void case_rng(const std::string& stream, long i, bool corpus = false)
@@ -234,7 +244,7 @@ int main(int argc, char** argv)
         if (only < 0 && (idx % ctx.nworkers) != ctx.worker) continue;
         if (stop >= 0 && idx >= stop) break;
         ctx.idx = idx;
-        ctx.counters.clear(); ctx.maxr.clear(); ctx.nontrivial.clear(); ctx.sample.clear(); ctx.nviol = 0;
+        ctx.counters.clear(); ctx.maxr.clear(); ctx.nontrivial.clear(); ctx.sample.clear(); ctx.nviol = 0; ctx.tag.clear();
         ctx.want_sample = (idx % sample_every == 0) || only >= 0;
         ctx.case_rng(vf_driver(), idx);
         fprintf(ctx.log, "B %ld\n", idx);
